@@ -3,10 +3,10 @@ package javascript
 // Binding F for spec/JsScopes (property C33).  The harness only drives the
 // real Minify with the program texts rendered from what TLC generated (and
 // with the shipped dashboard scripts) and logs the JavaScript TOKENS of what
-// came out - produced by the small tokenizer below, which follows the
-// ECMAScript lexical grammar (template head/middle/tail, regular expression
-// literals) and shares nothing with the minifier's own tokenizer.  The TLA+
-// contracts judge the logs.  Nothing here decides anything.
+// came out - produced by the small tokenizer of lex.go.tmpl, which follows
+// the ECMAScript lexical grammar and shares nothing with the minifier's own
+// tokenizer.  The TLA+ contracts judge the logs.  Nothing here decides
+// anything.
 //
 //   VERIF_IN     ndjson {"p": <items, passed through>, "text": "..."}
 //   VERIF_FILES  optional ndjson {"path": file}
@@ -23,173 +23,6 @@ import (
 	"path/filepath"
 	"testing"
 )
-
-type c33Tok struct {
-	K string `json:"k"`
-	T string `json:"t"`
-}
-
-func c33IdStart(b byte) bool {
-	return b == '_' || b == '$' || (b >= 'a' && b <= 'z') || (b >= 'A' && b <= 'Z') || b >= 0x80
-}
-
-func c33IdPart(b byte) bool { return c33IdStart(b) || (b >= '0' && b <= '9') }
-
-var c33RegexAfterWord = map[string]bool{"return": true, "typeof": true, "instanceof": true, "in": true, "of": true, "new": true,
-	"delete": true, "throw": true, "void": true, "case": true, "do": true, "else": true, "yield": true, "await": true}
-
-var c33Puncts = []string{">>>=", "...", "===", "!==", "**=", "<<=", ">>=", ">>>", "&&=", "||=", "??=",
-	"=>", "==", "!=", "<=", ">=", "&&", "||", "??", "?.", "++", "--", "+=", "-=", "*=", "/=", "%=", "&=", "|=", "^=", "<<", ">>", "**"}
-
-// c33Lex projects JavaScript source text to its token sequence.  ok=false: the text ends inside a token.
-func c33Lex(src []byte) (toks []c33Tok, ok bool) {
-	n := len(src)
-	i := 0
-	// template nesting: each entry is the brace depth inside a ${ } substitution
-	var tmpl []int
-	regexAllowed := func() bool {
-		if len(toks) == 0 {
-			return true
-		}
-		l := toks[len(toks)-1]
-		switch l.K {
-		case "id":
-			return c33RegexAfterWord[l.T]
-		case "punct":
-			return l.T != ")" && l.T != "]" && l.T != "}" && l.T != "++" && l.T != "--"
-		case "tmpl":
-			return len(l.T) >= 2 && l.T[len(l.T)-2:] == "${"
-		}
-		return false
-	}
-	// scans template characters from j (just after ` or }) to the next ${ or `; returns index after it and whether it ended the template
-	tmplChars := func(j int) (int, bool, bool) {
-		for j < n {
-			switch {
-			case src[j] == '\\':
-				j += 2
-			case src[j] == '`':
-				return j + 1, true, true
-			case src[j] == '$' && j+1 < n && src[j+1] == '{':
-				return j + 2, false, true
-			default:
-				j++
-			}
-		}
-		return n, true, false
-	}
-	for i < n {
-		b := src[i]
-		switch {
-		case b == ' ' || b == '\t' || b == '\n' || b == '\r' || b == '\v' || b == '\f':
-			i++
-		case b == '/' && i+1 < n && src[i+1] == '/':
-			for i < n && src[i] != '\n' {
-				i++
-			}
-		case b == '/' && i+1 < n && src[i+1] == '*':
-			j := bytes.Index(src[i+2:], []byte("*/"))
-			if j < 0 {
-				return toks, false
-			}
-			i += 2 + j + 2
-		case b == '\'' || b == '"':
-			j := i + 1
-			for j < n && src[j] != b {
-				if src[j] == '\\' {
-					j++
-				}
-				if j < n && src[j] == '\n' {
-					return toks, false
-				}
-				j++
-			}
-			if j >= n {
-				return toks, false
-			}
-			toks = append(toks, c33Tok{"str", string(src[i : j+1])})
-			i = j + 1
-		case b == '`':
-			j, ended, fine := tmplChars(i + 1)
-			if !fine {
-				return toks, false
-			}
-			toks = append(toks, c33Tok{"tmpl", string(src[i:j])})
-			if !ended {
-				tmpl = append(tmpl, 0)
-			}
-			i = j
-		case b == '}' && len(tmpl) > 0 && tmpl[len(tmpl)-1] == 0:
-			j, ended, fine := tmplChars(i + 1)
-			if !fine {
-				return toks, false
-			}
-			toks = append(toks, c33Tok{"tmpl", string(src[i:j])})
-			if ended {
-				tmpl = tmpl[:len(tmpl)-1]
-			}
-			i = j
-		case b == '/' && regexAllowed():
-			j := i + 1
-			inClass := false
-			for j < n && (src[j] != '/' || inClass) {
-				switch src[j] {
-				case '\\':
-					j++
-				case '[':
-					inClass = true
-				case ']':
-					inClass = false
-				case '\n':
-					return toks, false
-				}
-				j++
-			}
-			if j >= n {
-				return toks, false
-			}
-			j++
-			for j < n && c33IdPart(src[j]) {
-				j++
-			}
-			toks = append(toks, c33Tok{"regex", string(src[i:j])})
-			i = j
-		case (b >= '0' && b <= '9') || (b == '.' && i+1 < n && src[i+1] >= '0' && src[i+1] <= '9'):
-			j := i + 1
-			for j < n && (c33IdPart(src[j]) || src[j] == '.' ||
-				((src[j] == '+' || src[j] == '-') && (src[j-1] == 'e' || src[j-1] == 'E') && !(len(src[i:j]) > 1 && (src[i+1] == 'x' || src[i+1] == 'X')))) {
-				j++
-			}
-			toks = append(toks, c33Tok{"num", string(src[i:j])})
-			i = j
-		case c33IdStart(b):
-			j := i + 1
-			for j < n && c33IdPart(src[j]) {
-				j++
-			}
-			toks = append(toks, c33Tok{"id", string(src[i:j])})
-			i = j
-		default:
-			t := string(src[i : i+1])
-			for _, p := range c33Puncts {
-				if bytes.HasPrefix(src[i:], []byte(p)) {
-					t = p
-					break
-				}
-			}
-			if len(tmpl) > 0 {
-				if t == "{" {
-					tmpl[len(tmpl)-1]++
-				} else if t == "}" {
-					tmpl[len(tmpl)-1]--
-				}
-			}
-			toks = append(toks, c33Tok{"punct", t})
-			i += len(t)
-		}
-	}
-	return toks, len(tmpl) == 0
-}
 
 func c33Minify(text []byte, short bool) ([]byte, bool) {
 	arg := append([]byte(nil), text...)
